@@ -96,6 +96,12 @@ func (c *Conn) ReadFrom(r io.Reader) (int64, error) {
 // Close closes the connection.
 // Any blocked Read or Write operations will be unblocked and return errors.
 func (c *Conn) Close() error {
+	// The per-connection buckets were created for this connection only (see GetTrafficShapedConn);
+	// each owns a ticker and a goroutine that are released by closing it.
+	for _, bs := range c.LocalBuckets {
+		bs.ReadBucket.Close()
+		bs.WriteBucket.Close()
+	}
 	return c.conn.Close()
 }
 
